@@ -1,6 +1,7 @@
 package main
 
 import (
+	"go/constant"
 	"os"
 	"fmt"
 	"go/token"
@@ -2304,6 +2305,22 @@ func (z *zfn) edgeExcluded(phi *ssa.Phi, i int, at ssa.Instruction) bool {
 							holds, known = ke >= kc, true
 						}
 						if known && holds != truth {
+							return true
+						}
+					}
+				}
+			}
+			// a sibling boolean join tested as it is (`v, ok := f(); if !ok { return }` with f inlined back: ok and v are
+			// joins of the same block): the edges on which ok is the constant that the branch taken rules out are excluded
+			{
+				cv, neg := iff.Cond, false
+				if u, isU := cv.(*ssa.UnOp); isU && u.Op == token.NOT {
+					cv, neg = u.X, true
+				}
+				if q, ok := cv.(*ssa.Phi); have && ok && q.Block() == pb && q != phi && len(q.Edges) == len(phi.Edges) {
+					if k, isC := q.Edges[i].(*ssa.Const); isC && k.Value != nil && k.Value.Kind() == constant.Bool {
+						qTrue := truth != neg // the value q must have for the branch taken
+						if constant.BoolVal(k.Value) != qTrue {
 							return true
 						}
 					}
